@@ -201,6 +201,10 @@ func run(prop, tier, funcFilter string, verbose bool) (*report, error) {
 			continue
 		}
 		for _, o := range fr.Obligs {
+			// a clause tagged [Cxx] belongs to those properties only (a function may serve several)
+			if len(o.Props) > 0 && !hasProp(o.Props, prop) {
+				continue
+			}
 			all = append(all, &oblResult{O: o})
 		}
 	}
